@@ -4,7 +4,7 @@ from checklib import *
 from fmt_engine import *
 
 MODULE = "Feox.Props.C10W"
-THEOREMS = [
+THEOREMS = ['Feox.Fmt.decodeJournal_reads_newer_slot1', 'Feox.Fmt.decodeJournal_reads_newer_slot0', 'Feox.Fmt.decodeJournal_torn_slot1_keeps_slot0', 'Feox.Fmt.decodeJournal_torn_slot0_keeps_slot1', 
     "Feox.C10.clean_file_reads_back_as_its_index", "Feox.Fmt.openCleanB_sound", "Feox.Fmt.recover_clean_image", "Feox.Fmt.commit_record", "Feox.Fmt.toBlocks_chunks", "Feox.C10.written_record_is_accepted", "Feox.C10.written_marker_is_accepted", "Feox.C10.blank_block_is_free", "Feox.Fmt.encodeExtent_shape", "Feox.Fmt.chunks_flatten",
     "Feox.C10.reader_finds_exactly_the_index",
     "Feox.C10.blank_data_area_represents_free",
